@@ -448,7 +448,7 @@ def run(tier="quick", seed=0):
     common.os.environ["VERIF_TIER"] = tier
     common.os.environ["VERIF_SEED"] = str(seed)
     r = common.run("bounded.C16", cases(tier, seed), bound="C14 parameter grid; kernels on <=4 candidates / slates <=2x2", rule=RULE,
-                   budget_s=170 if tier == "quick" else 1500)
+                   budget_s=600 if tier == "quick" else 1500)
     r["assumptions"] += ["A-LIB: numpy.random.choice(a, size, p, replace) / random.choices / random.random follow their documented laws",
                          "not covered (not decidable by contracts or call-site checks): closeness of a finite MCMC run to its stationary law; laws of "
                          "Dirichlet-driven constructors (ImpartialCulture draws its ballot probabilities from Dirichlet(1e20))"]
